@@ -121,6 +121,8 @@ type mon struct {
 	run   *core.Run
 	hangs int32
 	child bool
+	nsA   int64
+	nsB   int64
 
 	mu     sync.Mutex
 	hashes map[string]string // eval key -> hash of first compilation outcome (compared with the child process)
@@ -1058,10 +1060,14 @@ func TestZZVerifC15(t *testing.T) {
 			return
 		}
 		core.Progress("C15", cd.ID)
+		t0 := time.Now()
 		m.partA(cd)
+		t1 := time.Now()
 		if !m.stop() {
 			m.partB(cd)
 		}
+		atomic.AddInt64(&m.nsA, int64(t1.Sub(t0)))
+		atomic.AddInt64(&m.nsB, int64(time.Since(t1)))
 	}
 	for i := firstRand; i < firstRand+pre && i < len(cases); i++ {
 		doCase(cases[i])
@@ -1135,6 +1141,8 @@ func TestZZVerifC15(t *testing.T) {
 	run.Extra("median_call_upper_bound", medianDur().String())
 	run.Extra("max_call", durMax.String())
 	run.Extra("bound", bound.String())
+	run.Extra("cpu_part_a", time.Duration(m.nsA).String())
+	run.Extra("cpu_part_b", time.Duration(m.nsB).String())
 
 	run.FloorDistinct("compile-outcome", 2)
 	run.FloorDistinct("graph-error-class", 5)
